@@ -395,7 +395,7 @@ template <class C> struct Exec {
         return true;
     }
     // one ToString call with capacity cap into a fresh buffer; checks the C05 contract. text_out gets the text on success.
-    bool tostring_cap(int opi, const Uri* u, int cap, bool with_written, int required, std::string* text_out, int* rc_out) {
+    bool tostring_cap(int opi, const Uri* u, int cap, bool with_written, int required, std::string* text_out, int* rc_out, int* len_out = nullptr) {
         int alloc_chars = cap > 0 ? cap : 0;
         // a caller that knows the text fits may state a capacity far beyond it ("no limit"): the buffer then really holds required+8
         if (required >= 0 && cap > required + 4096) alloc_chars = required + 8;
@@ -428,6 +428,8 @@ template <class C> struct Exec {
         } else if (rc == URI_SUCCESS && text_out) {
             int len = 0; while (len < alloc_chars && dest[len] != 0) len++;
             *text_out = narrow(dest, dest + len);
+            if (len_out) *len_out = len;
+            if (written && *written != len + 1) { snprintf(buf, sizeof buf, "charsWritten=%d but the text written has %d characters (capacity %d)", *written, len, cap); violate(V_SIZE_CONTRACT, buf, false); }
         }
         return true;
     }
